@@ -117,7 +117,12 @@ class OmegaAdapter(Adapter):
             # what callers hand over: arrays for most, a plain list now and then
             caller = np.array(w)
             caller_k = None if kk is None else np.array(kk)
-            if src['origin'] == 'array':
+            if src['origin'] == 'array' and src['lenRel'] == 'shorter' and 2 * len(caller) == len(k) and rng.random() < 0.6:
+                # too few points, handed over as the whole two-column [k, omega] table (an array or a list of rows): the TOTAL number
+                # of entries equals the number of grid points, the number of tabulated POINTS does not
+                table = np.column_stack([k[:len(caller)], caller])
+                world['obj'] = pyPRISM.omega.FromArray(table if rng.random() < 0.5 else table.tolist())
+            elif src['origin'] == 'array':
                 world['obj'] = pyPRISM.omega.FromArray(caller if rng.random() < 0.8 else list(caller))
             else:
                 world['obj'] = pyPRISM.omega.FromArray(caller, k=caller_k)
